@@ -475,7 +475,32 @@ impl<'a> Gen<'a> {
         let mut subs: Vec<Sel> = Vec::new();
         let bad_at = if invalid { Some(self.rng.below(n)) } else { None };
         // bias: runs of adjacent text selections on one resource / consecutive annotations (range compression)
-        let style = self.rng.below(5);
+        let style = self.rng.below(6);
+        if style == 5 && !invalid {
+            // the same annotation named twice (two parts of it, or twice as a whole), optionally with another
+            // member: every index entry made per member must also be taken out per member on removal
+            let live: Vec<usize> = m.annotations.iter().enumerate().filter(|(_, a)| a.live).map(|(i, _)| i).collect();
+            if !live.is_empty() {
+                let uid = *self.rng.pick(&live);
+                let parts = match m.single_text(uid) {
+                    Some(t) if t.e - t.b >= 2 && self.rng.chance(2, 3) => {
+                        let k = self.rng.range(1, t.e - t.b - 1);
+                        (Some((Cur::B(0), Cur::B(k))), Some((Cur::B(k), Cur::E(0))))
+                    }
+                    _ => (None, None),
+                };
+                subs.push(Sel::Annotation { a: Ref { idx: uid, by: By::Handle }, offset: parts.0 });
+                if self.rng.chance(1, 3) {
+                    subs.push(self.simple_sel(m, false));
+                }
+                subs.push(Sel::Annotation { a: Ref { idx: uid, by: By::Handle }, offset: parts.1 });
+                return match kind {
+                    1 => Sel::Multi(subs),
+                    2 => Sel::Composite(subs),
+                    _ => Sel::Directional(subs),
+                };
+            }
+        }
         if style == 4 && !invalid {
             // a run of consecutive whole annotations (one merged range) with a tail of one to three other
             // members behind it: everything written per member (resource, offsets, ids) must stay aligned
